@@ -15,10 +15,12 @@ package shwap_test
 import (
 	"bytes"
 	"context"
+	"encoding/json"
 	"fmt"
 	"os"
 	"path/filepath"
 	"strconv"
+	"strings"
 	"sync/atomic"
 	"testing"
 	"time"
@@ -41,10 +43,30 @@ var (
 )
 
 func axisName(a rsmt2d.Axis) string {
-	if a == rsmt2d.Row {
+	switch a {
+	case rsmt2d.Row:
 		return "row"
+	case rsmt2d.Col:
+		return "col"
 	}
-	return "col"
+	return "label#" + strconv.Itoa(int(a))
+}
+
+// vAxisLabels: the two valid proof-axis labels followed by out-of-range ones. The label is an
+// unauthenticated field of the response; a struct or a JSON document can carry any int.
+var vAxisLabels = []rsmt2d.Axis{rsmt2d.Row, rsmt2d.Col, rsmt2d.Axis(2), rsmt2d.Axis(3), rsmt2d.Axis(255), rsmt2d.Axis(-1)}
+
+// sampleViaJSON presents a sample the way the RPC/JSON representation does.
+func sampleViaJSON(s shwap.Sample) (shwap.Sample, error) {
+	b, err := s.MarshalJSON()
+	if err != nil {
+		return shwap.Sample{}, fmt.Errorf("json marshal: %w", err)
+	}
+	var out shwap.Sample
+	if err := out.UnmarshalJSON(b); err != nil {
+		return shwap.Sample{}, fmt.Errorf("json unmarshal: %w", err)
+	}
+	return out, nil
 }
 
 // try evaluates one candidate: run returns the verifier's verdict and the shares the
@@ -141,13 +163,14 @@ func (c *vCtx) enumSamples(reduced bool) {
 	// operator-class strings, precomputed: [rel][proofaxis][flag][graft]
 	rels := []string{"same-cell", "same-row", "same-col", "transposed", "other-cell"}
 	relIdx := map[string]int{}
-	var sclass [5][2][2][2]string
+	var sclass [5][2][6][2][2]string
 	for ri, rel := range rels {
 		relIdx[rel] = ri
 		for ai, pa := range axes {
-			for fi, flag := range axes {
+			for fi, flag := range vAxisLabels {
 				for g, shName := range []string{"own", "requested"} {
-					sclass[ri][ai][fi][g] = "sample/src=" + rel + ",proofaxis=" + axisName(pa) + ",flag=" + axisName(flag) + ",share=" + shName
+					sclass[ri][ai][fi][g][0] = "sample/src=" + rel + ",proofaxis=" + axisName(pa) + ",flag=" + axisName(flag) + ",share=" + shName
+					sclass[ri][ai][fi][g][1] = sclass[ri][ai][fi][g][0] + ",via=json"
 				}
 			}
 		}
@@ -179,6 +202,15 @@ func (c *vCtx) enumSamples(reduced bool) {
 					return s.Verify(S.DAH, r, col), []libshare.Share{s.Share}
 				}
 			}
+			verifyJSON := func(s shwap.Sample) func() (error, []libshare.Share) {
+				return func() (error, []libshare.Share) {
+					d, err := sampleViaJSON(s)
+					if err != nil {
+						return err, nil
+					}
+					return d.Verify(S.DAH, r, col), []libshare.Share{d.Share}
+				}
+			}
 			for sr := 0; sr < n; sr++ {
 				for sc := 0; sc < n; sc++ {
 					if reduced && !(sr == r || sc == col || (sr == col && sc == r) || (abs(sr-r) <= 1 && abs(sc-col) <= 1)) {
@@ -187,7 +219,7 @@ func (c *vCtx) enumSamples(reduced bool) {
 					ri := relIdx[relName(r, col, sr, sc)]
 					for ai, pa := range axes {
 						p := proofs[0][ai][sr][sc]
-						for fi, flag := range axes {
+						for fi, flag := range vAxisLabels {
 							for graft := 0; graft < 2; graft++ {
 								if graft == 1 && sr == r && sc == col {
 									continue
@@ -200,12 +232,25 @@ func (c *vCtx) enumSamples(reduced bool) {
 								honest := sr == r && sc == col && flag == pa
 								class := "sample/honest/" + axisName(pa)
 								if !honest {
-									class = sclass[ri][ai][fi][graft]
+									class = sclass[ri][ai][fi][graft][0]
 								}
 								smp := shwap.Sample{Share: sh, Proof: p, ProofType: flag}
 								c.try("sample", req, func() string {
 									return fmt.Sprintf("share=%s of (%d,%d) proof=%s-proof of (%d,%d) flag=%s", shName, sr, sc, axisName(pa), sr, sc, axisName(flag))
 								}, class, honest, honest, ref, verify(smp))
+								// the same sample through its JSON representation (MarshalJSON of the struct,
+								// UnmarshalJSON on the receiving side): every out-of-range label with material of
+								// the requested cell, its row and its column (all quadrants); valid labels for the
+								// honest sample.
+								if (fi >= 2 && ri <= 2) || honest {
+									jclass := "sample/honest/" + axisName(pa) + ",via=json"
+									if !honest {
+										jclass = sclass[ri][ai][fi][graft][1]
+									}
+									c.try("sample", req, func() string {
+										return fmt.Sprintf("JSON round trip of share=%s of (%d,%d) proof=%s-proof of (%d,%d) flag=%s", shName, sr, sc, axisName(pa), sr, sc, axisName(flag))
+									}, jclass, honest, honest, ref, verifyJSON(smp))
+								}
 							}
 						}
 					}
@@ -230,8 +275,6 @@ func (c *vCtx) enumSamples(reduced bool) {
 					{"end+1", shwap.Sample{Share: own, Proof: ptr(nmt.NewInclusionProof(idx, idx+2, hp.Nodes(), true)), ProofType: pa}},
 					{"maxns-not-ignored", shwap.Sample{Share: own, Proof: ptr(nmt.NewInclusionProof(idx, idx+1, hp.Nodes(), false)), ProofType: pa}},
 					{"absence-shaped", shwap.Sample{Share: own, Proof: ptr(nmt.NewAbsenceProof(idx, idx+1, hp.Nodes(), leafHash(own, r >= S.W || col >= S.W), true)), ProofType: pa}},
-					{"axis-flag=2", shwap.Sample{Share: own, Proof: hp, ProofType: rsmt2d.Axis(2)}},
-					{"axis-flag=255", shwap.Sample{Share: own, Proof: hp, ProofType: rsmt2d.Axis(255)}},
 					{"nodes-dropped-last", shwap.Sample{Share: own, Proof: ptr(nmt.NewInclusionProof(idx, idx+1, dropLast(hp.Nodes()), true)), ProofType: pa}},
 				}
 				if idx > 0 {
@@ -253,9 +296,40 @@ func (c *vCtx) enumSamples(reduced bool) {
 					alt{"othersquare-share,own-proof", shwap.Sample{Share: c.S2.Cell(r, col), Proof: hp, ProofType: pa}},
 					alt{"own-share,othersquare-proof", shwap.Sample{Share: own, Proof: p2, ProofType: pa}},
 				)
+				for _, lab := range vAxisLabels[2:] {
+					alts = append(alts,
+						alt{"othersquare-share+proof,flag=" + axisName(lab), shwap.Sample{Share: c.S2.Cell(r, col), Proof: p2, ProofType: lab}},
+						alt{"othersquare-share,own-proof,flag=" + axisName(lab), shwap.Sample{Share: c.S2.Cell(r, col), Proof: hp, ProofType: lab}},
+					)
+				}
 				for _, a := range alts {
 					c.try("sample", req, func() string { return a.name + " on " + axisName(pa) + "-sample" },
 						"sample/proofshape="+a.name, false, false, ref, verify(a.s))
+					if strings.Contains(a.name, "flag=label#") {
+						c.try("sample", req, func() string { return "JSON round trip of " + a.name + " on " + axisName(pa) + "-sample" },
+							"sample/proofshape="+a.name+",via=json", false, false, ref, verifyJSON(a.s))
+					}
+				}
+				// editing the proof_type field of the honest JSON document
+				hs := shwap.Sample{Share: own, Proof: hp, ProofType: pa}
+				if hj, err := hs.MarshalJSON(); err == nil {
+					field := []byte(`"proof_type":` + strconv.Itoa(int(pa)))
+					if bytes.Count(hj, field) == 1 {
+						for _, v := range []string{"2", "3", "255", "-1", "256", "4294967296", "1.0", `"1"`, "null", strconv.Itoa(1 - int(pa))} {
+							ed := bytes.Replace(hj, field, []byte(`"proof_type":`+v), 1)
+							c.try("sample", req, func() string {
+								return "honest " + axisName(pa) + "-sample JSON with proof_type:=" + v
+							}, "sample/json-field-edit,proof_type", false, false, ref, func() (error, []libshare.Share) {
+								var d shwap.Sample
+								if err := d.UnmarshalJSON(ed); err != nil {
+									return fmt.Errorf("json unmarshal: %w", err), nil
+								}
+								return d.Verify(S.DAH, r, col), []libshare.Share{d.Share}
+							})
+						}
+					} else if c.only == nil {
+						c.rep.Infra("honest sample JSON has no unique proof_type field")
+					}
 				}
 			}
 		}
@@ -295,7 +369,7 @@ func sideName(s shwap.RowSide) string {
 func (c *vCtx) enumRows(reduced bool) {
 	S, n, w := c.S, c.S.N, c.S.W
 	axes := []rsmt2d.Axis{rsmt2d.Row, rsmt2d.Col}
-	sides := []shwap.RowSide{shwap.Left, shwap.Right, shwap.Both, shwap.RowSide(3)}
+	sides := []shwap.RowSide{shwap.Left, shwap.Right, shwap.Both, shwap.RowSide(3), shwap.RowSide(255), shwap.RowSide(-1)}
 	for idx := 0; idx < n; idx++ {
 		req := fmt.Sprintf("row=%d", idx)
 		if !c.wantReq("row", req) {
@@ -362,6 +436,51 @@ func (c *vCtx) enumRows(reduced bool) {
 							}, class, honest, honest, ref, verify(p.shs, side))
 						}
 					}
+				}
+			}
+		}
+		// the JSON representation carries the side as a string: every valid and several unknown
+		// spellings × halves/whole of the requested row and of its neighbour
+		for _, j := range []int{idx, (idx + 1) % n} {
+			src := S.Row(j)
+			for _, p := range []struct {
+				name string
+				shs  []libshare.Share
+				real string
+			}{{"left-half", src[:w], "LEFT"}, {"right-half", src[w:], "RIGHT"}, {"both", src, "BOTH"}} {
+				for _, label := range []string{"LEFT", "RIGHT", "BOTH", "", "left", "3", "UNKNOWN"} {
+					honest := j == idx && label == p.real
+					class := "row/honest/" + label + ",via=json"
+					if !honest {
+						rel := "same"
+						if j != idx {
+							rel = "other-row"
+						}
+						class = "row/src=" + rel + ",part=" + p.name + ",jsonside=" + label
+					}
+					doc, err := json.Marshal(struct {
+						Shares []libshare.Share `json:"shares"`
+						Side   string           `json:"side"`
+					}{p.shs, label})
+					if err != nil {
+						panic(err)
+					}
+					c.try("row", req, func() string {
+						return fmt.Sprintf("JSON document {shares: %s of row %d, side: %q}", p.name, j, label)
+					}, class, honest, honest, ref, func() (error, []libshare.Share) {
+						var row shwap.Row
+						if err := row.UnmarshalJSON(doc); err != nil {
+							return fmt.Errorf("json unmarshal: %w", err), nil
+						}
+						if err := row.Verify(S.DAH, idx); err != nil {
+							return err, nil
+						}
+						out, serr := row.Shares()
+						if serr != nil {
+							out = nil
+						}
+						return nil, out
+					})
 				}
 			}
 		}
@@ -478,6 +597,15 @@ func honestListOps(h shwap.RowNamespaceData, neighbour *libshare.Share) []rowEnt
 	s := h.Shares
 	add := func(name string, shs []libshare.Share) {
 		out = append(out, rowEntry{name: "honest entry with shares " + name, class: "listop=" + name, e: shwap.RowNamespaceData{Shares: shs, Proof: h.Proof}})
+	}
+	if h.Proof != nil && !h.Proof.IsEmptyProof() {
+		// the proof's "ignore max namespace" flag is an unauthenticated label as well
+		p := nmt.NewInclusionProof(h.Proof.Start(), h.Proof.End(), h.Proof.Nodes(), false)
+		if h.Proof.IsOfAbsence() {
+			p = nmt.NewAbsenceProof(h.Proof.Start(), h.Proof.End(), h.Proof.Nodes(), h.Proof.LeafHash(), false)
+		}
+		out = append(out, rowEntry{name: "honest entry with proof flag maxns-ignored:=false", class: "proofflag=maxns-not-ignored",
+			e: shwap.RowNamespaceData{Shares: s, Proof: &p}})
 	}
 	if len(s) > 0 {
 		add("drop-first", s[1:])
